@@ -46,8 +46,11 @@ def check(run: Run):
         for cap in ([1, 2, 3, 5, 6, 8, 10, 20, 99, 100, 101] if q else [1, 2, 3, 4, 5, 6, 7, 8, 10, 12, 20, 50, 99, 100, 101, 200]):
             for exp in ([0, 3] if cap in (2, 100) or not q else [0]):
                 for sync in (True, False):
+                    # asynchronous eviction makes the trace specification branch (how far callback delivery lags is not logged):
+                    # shorter runs there keep every TLC call in minutes
+                    n = L if cap < 50 else 2 * L
                     cfgs.append({"cap": cap, "policy": pol, "expiry": exp, "sync": sync,
-                                 "keys": cap + max(2, cap // 2), "len": L if cap < 50 else 2 * L, "runs": R})
+                                 "keys": cap + max(2, cap // 2), "len": n if sync or q else n // 4, "runs": R})
     tr = run.drv(["cache-trace", "-seed", str(run.seed), "-trace", "trace.ndjson", "-cfg", json.dumps(cfgs)], timeout=1200)
     run.absorb(tr)
     drop_aborted(os.path.join(run.work, "trace.ndjson"))
@@ -56,7 +59,7 @@ def check(run: Run):
     import shutil
     shutil.copy(os.path.join(run.work, "trace.ndjson"), os.path.join(run.work, "trace_all.ndjson"))
     rej = validate_traces(run, "CacheTrace.tla", consts, ["SizeBound", "Structure", "SlruShape", "ClosedEmpty"],
-                          os.path.join(run.work, "trace.ndjson"), "contract", chunk_runs=None if q else 60)
+                          os.path.join(run.work, "trace.ndjson"), "contract", chunk_runs=None if q else 30)
     for x in rej:
         rs = x["reset"]
         run.findings.append({"kind": "trace-rejected policy=%s cap=%d sync=%s op=%s" % (rs["policy"], rs["cap"], rs["sync"], x["event"]["op"]),
@@ -74,7 +77,7 @@ def check(run: Run):
         f.writelines(l for l in lines if json.loads(l)["run"] in keep)
     consts["TlfuAs"] = '"tlfu"'
     tv, ev = run.traces_validated, run.events_validated
-    rej2 = validate_traces(run, "CacheTrace.tla", consts, ["SizeBound", "Structure", "TlfuShape"], os.path.join(run.work, "trace.ndjson"), "tlfu-detail", max_reject=1, chunk_runs=None if q else 60)
+    rej2 = validate_traces(run, "CacheTrace.tla", consts, ["SizeBound", "Structure", "TlfuShape"], os.path.join(run.work, "trace.ndjson"), "tlfu-detail", max_reject=1, chunk_runs=None if q else 30)
     run.traces_validated, run.events_validated = tv, ev
     if rej2:
         print("MODEL-DRIFT property=C15 detailed TinyLFU model (window+SLRU) rejects a recorded tinylfu run: %s" % json.dumps(rej2[0]["event"]))
